@@ -177,7 +177,7 @@ var (
 	vEdgeCJK     = []rune("米飯麺茶水魚肉卵豆腐한글かな")
 	vEdgeLatin   = []rune("éèêëàâäôöùûüçñßøåÉÖÀÐÿµªºþ")
 	vEdgeOther   = []rune("אבגשעبتثकखगกขด")
-	vInnerWild   = []string{" ", "  ", "/", ".", "_", "'", "(", ")", "%", "+", "&", ",", "\"", ":", "-", "#", "=", ", ", ": ", " - "}
+	vInnerWild   = []string{" ", "  ", "/", ".", "_", "'", "(", ")", "%", "+", "&", ",", "\"", ":", "-", "#", "=", ", ", ": ", " - ", " #", "\\", "\": ", "\\ "}
 	vInnerTame   = []string{" ", "/", ".", "_", "-", "'", "&", "+", "%", "(", ")", ",", "<", ">", ";"}
 	vEdgeClasses = [][]rune{vEdgeASCII, vEdgeASCII, vEdgeASCII, vEdgeDigits, vEdgeCyr, vEdgeGreek, vEdgeCJK, vEdgeLatin, vEdgeOther}
 )
@@ -318,7 +318,17 @@ func vGenPath(t *rapid.T, segs []string, maxSeg int, label string) string {
 // vGenNumAny draws a number in any documented/accepted decimal shape.
 func vGenNumAny(t *rapid.T, label string) string {
 	sign := []string{"", "", "", "-", "-", "+"}[rapid.IntRange(0, 5).Draw(t, label+".sign")]
-	switch rapid.IntRange(0, 13).Draw(t, label+".shape") {
+	switch rapid.IntRange(0, 14).Draw(t, label+".shape") {
+	case 14: // leading zeros: decimal all the same (010 is ten), with or without a fraction or an exponent
+		z := strings.Repeat("0", rapid.IntRange(1, 3).Draw(t, label+".lz"))
+		body := fmt.Sprint(rapid.IntRange(0, 7777).Draw(t, label+".i"))
+		switch rapid.IntRange(0, 4).Draw(t, label+".lzk") {
+		case 0:
+			body += fmt.Sprintf(".%d", rapid.IntRange(0, 99).Draw(t, label+".f"))
+		case 1:
+			body += fmt.Sprintf("e%d", rapid.IntRange(0, 3).Draw(t, label+".x"))
+		}
+		return sign + z + body
 	case 13: // many decimals but few significant digits
 		nz := rapid.IntRange(12, 22).Draw(t, label+".nz")
 		return sign + "0." + strings.Repeat("0", nz) + fmt.Sprint(rapid.IntRange(1, 9999).Draw(t, label+".sig")) + strings.Repeat("0", rapid.IntRange(0, 8).Draw(t, label+".tz"))
@@ -388,7 +398,8 @@ func vGenCoefExact(t *rapid.T, label string) string {
 
 var vDecimalPool = []string{"259", "3.3", "0.40", "1.20", "-124", "0.001", "48", "9", "1.1", "0.9", "680", "7.5", "0.1", "0.2", "0.3", "1.5", "2.675", "-0.7", "-1.05", "100", "0.07", "33.333", "1e2", "2.5e-1", "0", "1", "2", "-1", "0.5",
 	"0.005", "0.015", "0.125", "0.4", "-0.4", "12345678.5", "-1234567.25", "0.104", "0.108",
-	"9999999.995", "9999999.999", "-999999.995", "-999999.999", "999.995", "9.995", "0.995", "99999.999"}
+	"9999999.995", "9999999.999", "-999999.995", "-999999.999", "999.995", "9.995", "0.995", "99999.999",
+	"010", "-0100", "+017", "0012.50", "007"}
 
 func vGenNumDecimal(t *rapid.T, label string) string {
 	if rapid.IntRange(0, 3).Draw(t, label+".p") == 0 {
